@@ -63,3 +63,152 @@ Qed.
 Corollary alias_accepted n es b e : make_8dot3 n es = Ok (b, e) ->
   (match b, e with [], _ :: _ => true | _, _ => false end) = false.
 Proof. intros H. destruct (alias_spec n es b e H) as (_ & _ & Hx & _). destruct b; [rewrite (Hx eq_refl); reflexivity|reflexivity]. Qed.
+
+(** * The stored 11 bytes show the alias again, and the directory keeps pairwise different short names *)
+From Coq Require Import Permutation.
+From PyFatV Require Import Proofs.FatCodec Proofs.DirCodec.
+
+Lemma rstrip_pad_nil k : rstrip_sp (pad_sp k []) = [].
+Proof. induction k as [|k IH]; [reflexivity|]. cbn [pad_sp rstrip_sp]. rewrite IH. reflexivity. Qed.
+Lemma rstrip_pad k : forall l, Forall (fun c => c <> 32) l -> (length l <= k)%nat -> rstrip_sp (pad_sp k l) = l.
+Proof.
+  induction k as [|k IH]; intros l Hl Hk.
+  - destruct l; [reflexivity|cbn in Hk; lia].
+  - destruct l as [|x r]; [apply rstrip_pad_nil|]. cbn [pad_sp rstrip_sp]. inversion Hl as [|? ? Hx Hr]; subst.
+    rewrite (IH r Hr) by (cbn in Hk; lia). destruct r; [|reflexivity]. destruct (x =? 32) eqn:E; [lia|reflexivity].
+Qed.
+Lemma pad_sp_length k : forall l, length (pad_sp k l) = k.
+Proof. induction k as [|k IH]; intros l; [reflexivity|]. destruct l; cbn [pad_sp length]; rewrite IH; reflexivity. Qed.
+
+Definition okc (c:Z) : Prop := 32 < c /\ c <> 46.
+Lemma okc_nosp l : Forall okc l -> Forall (fun c => c <> 32) l.
+Proof. intros H. eapply Forall_impl; [|exact H]. unfold okc. intros; lia. Qed.
+
+Theorem unpack_pack b e : Forall okc b -> Forall okc e -> (length b <= 8)%nat -> (length e <= 3)%nat ->
+  sfn_unpack (sfn_pack b e) = (b, e).
+Proof.
+  intros Hb He Lb Le. unfold sfn_unpack, sfn_pack. rewrite sfn_lead_roundtrip.
+  - rewrite firstn_app, skipn_app, !pad_sp_length. change (8 - 8)%nat with 0%nat. rewrite firstn_O, skipn_O.
+    rewrite app_nil_r. rewrite (firstn_all2 (n:=8) (pad_sp 8 b)) by (rewrite pad_sp_length; lia).
+    rewrite (skipn_all2 (n:=8) (pad_sp 8 b)) by (rewrite pad_sp_length; lia).
+    change ([] ++ pad_sp 3 e) with (pad_sp 3 e). rewrite (firstn_all2 (n:=3) (pad_sp 3 e)) by (rewrite pad_sp_length; lia).
+    rewrite (rstrip_pad 8 b (okc_nosp _ Hb) Lb), (rstrip_pad 3 e (okc_nosp _ He) Le). reflexivity.
+  - destruct b as [|x r]; [cbn; lia|]. cbn. inversion Hb as [|? ? Hx _]; subst. unfold okc in Hx. lia.
+Qed.
+Corollary display_pack b e : Forall okc b -> Forall okc e -> (length b <= 8)%nat -> (length e <= 3)%nat ->
+  sfn_display (sfn_pack b e) = join_ext b e.
+Proof. intros Hb He Lb Le. unfold sfn_display. rewrite unpack_pack by assumption. reflexivity. Qed.
+
+(** every byte of a generated alias is a character above the space and not a dot *)
+Lemma map_chars_okc l : Forall (fun c => 32 <= c) l -> Forall okc (map_chars l).
+Proof.
+  induction l as [|c r IH]; intros H; [constructor|]. inversion H as [|? ? Hc Hr]; subst. cbn [map_chars flat_map]. fold (map_chars r).
+  destruct (c =? 32) eqn:E; [exact (IH Hr)|]. destruct (in_list c Gen.INVALID_CHARACTERS) eqn:Ei; cbn [app].
+  - constructor; [unfold okc; lia|exact (IH Hr)].
+  - constructor; [|exact (IH Hr)]. split; [lia|]. intros ->. vm_compute in Ei. discriminate.
+Qed.
+Lemma digits_fuel_okc f : forall n acc, 0 <= n -> Forall okc acc -> Forall okc (digits_fuel f n acc).
+Proof.
+  induction f as [|f IH]; intros n acc Hn Ha; [exact Ha|]. cbn [digits_fuel]. destruct (n <? 10) eqn:E.
+  - constructor; [unfold okc; lia|exact Ha].
+  - apply IH; [apply Z.div_pos; lia|]. constructor; [|exact Ha]. pose proof (Z.mod_pos_bound n 10 ltac:(lia)). unfold okc; lia.
+Qed.
+Lemma firstn_forall {A} (P:A->Prop) k : forall l, Forall P l -> Forall P (firstn k l).
+Proof. induction k as [|k IH]; intros l H; [constructor|]. destruct l; [constructor|]. inversion H; subst. cbn [firstn]. constructor; [assumption|apply IH; assumption]. Qed.
+Lemma alias_loop_okc fuel : forall i b e taken b' e', 0 <= i -> Forall okc b -> alias_loop fuel i b e taken = Ok (b', e') -> Forall okc b'.
+Proof.
+  induction fuel as [|f IH]; intros i b e taken b' e' Hi Hb H; [discriminate|]. cbn [alias_loop] in H.
+  destruct (7 <? lenZ (digits i) + 1); [discriminate|].
+  set (bn := if 0 <? i then firstn (Z.to_nat (8 - (1 + lenZ (digits i)))) b ++ [126] ++ digits i else b) in H.
+  assert (Hbn : Forall okc bn).
+  { unfold bn. destruct (0 <? i); [|exact Hb]. apply Forall_app. split; [apply firstn_forall; exact Hb|].
+    apply Forall_app. split; [constructor; [unfold okc; lia|constructor]|]. unfold digits. apply digits_fuel_okc; [exact Hi|constructor]. }
+  destruct (existsb _ taken); [eapply IH; [|exact Hbn|exact H]; lia|]. inversion H; subst. exact Hbn.
+Qed.
+
+Lemma list_eqb_neq a b : list_eqb a b = false -> a <> b.
+Proof. intros H ->. rewrite list_eqb_refl in H. discriminate. Qed.
+Lemma existsb_eqb_notin x l : existsb (list_eqb x) l = false -> ~ In x l.
+Proof. intros H Hin. rewrite <- not_true_iff_false in H. apply H. apply existsb_exists. exists x. split; [exact Hin|apply list_eqb_refl]. Qed.
+
+(** what [make_8dot3] returns, with everything the stored form needs *)
+Theorem alias_stored n es b e :
+  Forall (fun c => 32 <= c) (n_base n) -> Forall (fun c => 32 <= c) (n_ext n) -> lenZ (n_base n) <= 8 -> lenZ (n_ext n) <= 3 ->
+  make_8dot3 n es = Ok (b, e) ->
+  sfn_display (sfn_pack b e) = join_ext b e /\ ~ In (sfn_display (sfn_pack b e)) (taken_of es) /\
+  sfn_display (sfn_pack b e) <> [46] /\ sfn_display (sfn_pack b e) <> [46;46].
+Proof.
+  intros Hb He Lb Le H. destruct (alias_spec n es b e H) as (Hfresh & _ & Hx & Hlen). specialize (Hlen Lb Le). destruct Hlen as [L8 L3].
+  assert (Ob : Forall okc b /\ Forall okc e).
+  { unfold make_8dot3 in H. pose proof (map_chars_okc _ Hb) as Mb. pose proof (map_chars_okc _ He) as Me.
+    destruct (map_chars (n_base n)) as [|c r]; pose proof H as H'; apply alias_loop_okc in H; try lia; try assumption;
+    apply alias_loop_spec in H'; try lia; destruct H' as (-> & _); split; try assumption; constructor. }
+  destruct Ob as [Ob Oe]. unfold lenZ in L8, L3.
+  assert (D : sfn_display (sfn_pack b e) = join_ext b e) by (apply display_pack; try assumption; lia).
+  rewrite D. split; [reflexivity|]. split; [apply existsb_eqb_notin; exact Hfresh|].
+  assert (Hd : forall r, join_ext b e <> 46 :: r).
+  { intros r. destruct b as [|x xs].
+    - rewrite (Hx eq_refl). cbn. discriminate.
+    - inversion Ob as [|? ? Hxo _]; subst. unfold join_ext. destruct e; cbn [app]; intros Hc; inversion Hc; subst; unfold okc in Hxo; lia. }
+  split; apply Hd.
+Qed.
+
+Lemma list_eqb_true a : forall b, list_eqb a b = true -> a = b.
+Proof.
+  induction a as [|x r IH]; intros [|y s] H; try discriminate; [reflexivity|]. cbn [list_eqb] in H. apply andb_true_iff in H. destruct H as [H1 H2].
+  apply Z.eqb_eq in H1. rewrite (IH s H2), H1. reflexivity.
+Qed.
+Lemma list_eqb_false a b : a <> b -> list_eqb a b = false.
+Proof. intros H. destruct (list_eqb a b) eqn:E; [|reflexivity]. exfalso. apply H, list_eqb_true, E. Qed.
+
+Lemma taken_of_app es x : is_special x = false -> is_volid x = false ->
+  Permutation (taken_of (es ++ [x])) (sfn_display (d_name x) :: taken_of es).
+Proof.
+  intros Hs Hv. unfold taken_of, ge_dirs, ge_files. rewrite !filter_app. cbn [filter]. rewrite Hs, Hv. cbn [orb negb andb].
+  destruct (is_dir x); cbn [negb app]; rewrite ?app_nil_r, !map_app; cbn [map].
+  - rewrite <- app_assoc. cbn [app]. symmetry. apply Permutation_middle.
+  - rewrite app_assoc. symmetry. rewrite <- map_app. apply Permutation_cons_append.
+Qed.
+
+(** a new entry whose short name is the generated alias keeps the short names of the directory pairwise different *)
+Theorem new_entry_keeps_short_names_unique n es b e x :
+  Forall (fun c => 32 <= c) (n_base n) -> Forall (fun c => 32 <= c) (n_ext n) -> lenZ (n_base n) <= 8 -> lenZ (n_ext n) <= 3 ->
+  make_8dot3 n es = Ok (b, e) -> d_name x = sfn_pack b e -> is_volid x = false ->
+  NoDup (taken_of es) -> NoDup (taken_of (es ++ [x])).
+Proof.
+  intros Hb He Lb Le H Hn Hv Hnd. destruct (alias_stored n es b e Hb He Lb Le H) as (_ & Hfresh & Hd1 & Hd2).
+  assert (Hs : is_special x = false).
+  { unfold is_special. rewrite Hn. rewrite (list_eqb_false _ _ Hd1), (list_eqb_false _ _ Hd2). reflexivity. }
+  eapply Permutation_NoDup; [symmetry; apply taken_of_app; assumption|]. constructor; [rewrite Hn; exact Hfresh|exact Hnd].
+Qed.
+
+
+(** * the same through [new_names], as [create] / [makedir] / [move] use it *)
+From PyFatV Require Import Model.FS.
+Lemma new_names_alias s n es sfn lfn : new_names s n es = Ok (sfn, lfn) -> exists b e, make_8dot3 n es = Ok (b, e) /\ sfn = sfn_pack b e.
+Proof.
+  unfold new_names. destruct (make_8dot3 n es) as [[b e]|] eqn:E; [|discriminate]. cbn [bind]. intros H. exists b, e. split; [reflexivity|].
+  rewrite (alias_accepted n es b e E) in H.
+  destruct (negb _ || _); [|congruence].
+  destruct (n_conform n && _); [discriminate|]. destruct (255 <? _); [discriminate|]. congruence.
+Qed.
+Theorem created_entry_keeps_short_names_unique s n es sfn lfn attr t :
+  Forall (fun c => 32 <= c) (n_base n) -> Forall (fun c => 32 <= c) (n_ext n) -> lenZ (n_base n) <= 8 -> lenZ (n_ext n) <= 3 ->
+  new_names s n es = Ok (sfn, lfn) -> Z.land Gen.ATTR_VOLUME_ID attr = 0 ->
+  NoDup (taken_of es) -> NoDup (taken_of (es ++ [set_lfn (new_dirent sfn attr t) lfn])).
+Proof.
+  intros Hb He Lb Le H Ha Hnd. destruct (new_names_alias _ _ _ _ _ H) as (b & e & E & ->).
+  apply (new_entry_keeps_short_names_unique n es b e _ Hb He Lb Le E); [reflexivity| |exact Hnd].
+  unfold is_volid, set_lfn, new_dirent, d_attr. rewrite Ha. reflexivity.
+Qed.
+Lemma alias_loop_not_einval f : forall i b0 e0 tk, alias_loop f i b0 e0 tk <> Err EINVAL.
+Proof. induction f as [|f IH]; intros i b0 e0 tk; cbn [alias_loop]; [discriminate|]. destruct (7 <? _); [discriminate|]. destruct (existsb _ tk); [apply IH|discriminate]. Qed.
+Theorem new_names_never_refuses_alias s n es : new_names s n es = Err EINVAL ->
+  exists b e, make_8dot3 n es = Ok (b, e) /\ n_conform n = true.
+Proof.
+  unfold new_names. destruct (make_8dot3 n es) as [[b e]|er] eqn:E; cbn [bind]; intros H.
+  - exists b, e. split; [reflexivity|]. rewrite (alias_accepted n es b e E) in H.
+    destruct (negb _ || _); [|discriminate]. destruct (n_conform n) eqn:C; [reflexivity|]. cbn [andb] in H. destruct (255 <? _); discriminate.
+  - exfalso. assert (er = EINVAL) by congruence. subst er. unfold make_8dot3 in E.
+    destruct (map_chars (n_base n)); eapply alias_loop_not_einval; exact E.
+Qed.
